@@ -37,7 +37,8 @@ package main
 //
 // results: ok | err (destination/writer error) | ep (protocol validation) | ee (empty messages) | ev (message validator) | ec (ctx.Err() of a
 // cancelled context) | en (nil writer) | eo (other)
-// log entries: w<len>:<taken>[!]  a<len>@<off>:<taken>[!]  s<delta>[!]      (! = the operation failed)
+// log entries: w<len>#<digest>:<taken>[!]  a<len>#<digest>@<off>:<taken>[!]  s<delta>[!]      (! = the operation failed;
+// digest = low 32 bits of the FNV-1a 64 of the bytes handed to the operation, all of them, whatever was taken)
 
 import (
 	"bytes"
@@ -173,19 +174,19 @@ func (d *wrDest) write(p []byte) (int, error) {
 		t := min(j, len(p))
 		d.store(d.pos, p[:t])
 		d.pos += int64(t)
-		d.log = append(d.log, fmt.Sprintf("w%d:%d", len(p), t))
+		d.log = append(d.log, fmt.Sprintf("w%d#%s:%d", len(p), wrDig(p), t))
 		return t, nil
 	}
 	if j, bad := d.fault(); bad {
 		t := min(j, len(p))
 		d.store(d.pos, p[:t])
 		d.pos += int64(t)
-		d.log = append(d.log, fmt.Sprintf("w%d:%d!", len(p), t))
+		d.log = append(d.log, fmt.Sprintf("w%d#%s:%d!", len(p), wrDig(p), t))
 		return t, errWrInjected
 	}
 	d.store(d.pos, p)
 	d.pos += int64(len(p))
-	d.log = append(d.log, fmt.Sprintf("w%d:%d", len(p), len(p)))
+	d.log = append(d.log, fmt.Sprintf("w%d#%s:%d", len(p), wrDig(p), len(p)))
 	return len(p), nil
 }
 
@@ -194,17 +195,17 @@ func (d *wrDest) writeAt(p []byte, off int64) (int, error) {
 	if j, sh := d.short(); sh {
 		t := min(j, len(p))
 		d.store(off, p[:t])
-		d.log = append(d.log, fmt.Sprintf("a%d@%d:%d", len(p), off, t))
+		d.log = append(d.log, fmt.Sprintf("a%d#%s@%d:%d", len(p), wrDig(p), off, t))
 		return t, nil
 	}
 	if j, bad := d.fault(); bad {
 		t := min(j, len(p))
 		d.store(off, p[:t])
-		d.log = append(d.log, fmt.Sprintf("a%d@%d:%d!", len(p), off, t))
+		d.log = append(d.log, fmt.Sprintf("a%d#%s@%d:%d!", len(p), wrDig(p), off, t))
 		return t, errWrInjected
 	}
 	d.store(off, p)
-	d.log = append(d.log, fmt.Sprintf("a%d@%d:%d", len(p), off, len(p)))
+	d.log = append(d.log, fmt.Sprintf("a%d#%s@%d:%d", len(p), wrDig(p), off, len(p)))
 	return len(p), nil
 }
 
@@ -595,6 +596,10 @@ func wrFnv(b []byte) uint64 {
 	}
 	return h
 }
+
+// wrDig: digest of the bytes handed to one destination operation (low 32 bits of FNV-1a 64), part of its log entry: the
+// operation logs of model and implementation agree on WHAT each operation carried, not only on how much
+func wrDig(p []byte) string { return fmt.Sprintf("%08x", uint32(wrFnv(p))) }
 
 // wrLogLen: payload length of a log entry (0 for a seek)
 func wrLogLen(e string) int {
